@@ -38,8 +38,26 @@ def _work(args):
     rng = random.Random(seed * 1000003 + tid)
     case = gen.make_case(rng, tid, groups=groups, **opts)
     out = []
-    for mi, m in enumerate(methods):
+    variants = []
+    for m in methods:
+        if m == "nexts":
+            # collect(nexts=n) for every n in 1..matches+1 (matches measured by a plain collect first)
+            probe = dict(case)
+            probe["tid"] = -1
+            try:
+                rec0, _ = runtrace.run_case(probe, "collect")
+            except Exception:
+                rec0 = None
+            nm = len(rec0["final"]["returned"]) if rec0 else 0
+            for n in range(1, min(nm + 1, 6) + 1):
+                variants.append(("collect", n))
+        else:
+            variants.append((m, 0))
+    for mi, (m, nx) in enumerate(variants):
         c = dict(case)
+        c["cfg"] = dict(case["cfg"])
+        c["cfg"]["nexts"] = nx
+        c["cfg"]["collecting"] = m == "collect"
         c["tid"] = tid * 16 + mi
         try:
             rec, info = runtrace.run_case(c, m)
